@@ -538,6 +538,28 @@ pub fn compare_items(src: &str, backend: &str, abis: &[String], structs: &[&str]
 /// Enums whose discriminants are not 0..n-1 in order take other code paths in both backends (value tables instead of
 /// positions); on the wire they are still a C `int`.  The generated modules only have plain enums, so these are
 /// written out: as receiver, parameter, result, inside options / results, and as a struct field.
+
+/// Writing methods whose return is `Option<()>` / `Result<(), ()>` (left out of the generated modules because of the
+/// recorded Kotlin `OptionUnit` finding F27, which concerns the *return* record): the parameter lists must still be
+/// the C function's, write buffer included, on every kind of receiver.
+fn write_option_probe(rep: &mut Report) {
+    let src = "#[diplomat::bridge]\nmod ffi {\n    #[diplomat::opaque]\n    pub struct Label(u8);\n    pub struct Point { pub x: i32, pub y: i32 }\n    pub enum Level { Low, High }\n    impl Label {\n        pub fn text_if_short(&self, limit: u8, w: &mut DiplomatWrite) -> Option<()> { None }\n        pub fn text_checked(&self, w: &mut DiplomatWrite) -> Result<(), ()> { Err(()) }\n        pub fn text(&self, w: &mut DiplomatWrite) { }\n        pub fn maybe(&self) -> Option<()> { None }\n    }\n    impl Point {\n        pub fn show_if_positive(self, w: &mut DiplomatWrite) -> Option<()> { None }\n    }\n    impl Level {\n        pub fn name_if_high(self, w: &mut DiplomatWrite) -> Option<()> { None }\n    }\n}\n";
+    let abis: Vec<String> = ["Label_text_if_short", "Label_text_checked", "Label_text", "Label_maybe", "Point_show_if_positive", "Level_name_if_high"].iter().map(|s| s.to_string()).collect();
+    for backend in ["dart", "kotlin"] {
+        rep.oracle_runs += 1;
+        rep.count("probe:write-option");
+        match compare_functions(src, backend, &abis) {
+            Err(e) => rep.notes.push(format!("write-option probe ({backend}): {e}")),
+            Ok(diffs) => {
+                for (item, pos, c, b) in diffs {
+                    if backend == "kotlin" && pos == "return" { continue; } // F27
+                    rep.oracle_fail(&format!("(c07 probe write-option {backend} {item})"), "the native declaration of a writing method does not have the C function's parameters", json!({"backend": backend, "item": item, "position": pos, "c": c, "binding": b, "source": src}));
+                }
+            }
+        }
+    }
+}
+
 fn sparse_enum_probe(rep: &mut Report) {
     let src = "#[diplomat::bridge]\nmod ffi {\n    pub enum Status { Unknown = -1, Idle = 0, Busy = 7 }\n    pub enum Flags { Low = 1, Top = 1073741824 }\n    pub enum Level { A, B, C }\n    pub struct Report { pub status: Status, pub level: Level, pub code: u8, pub flags: Flags }\n    #[diplomat::opaque]\n    pub struct Job(u8);\n    impl Job {\n        pub fn status(&self) -> Status { Status::Idle }\n        pub fn set_status(&mut self, s: Status, f: Flags, l: Level) {}\n        pub fn known_status(&self) -> Option<Status> { None }\n        pub fn check(&self) -> Result<Level, Status> { Ok(Level::A) }\n        pub fn flags(&self) -> Result<Flags, ()> { Err(()) }\n        pub fn report(&self) -> Report { unimplemented!() }\n        pub fn take(&self, r: Report) -> u8 { 0 }\n    }\n    impl Status {\n        pub fn is_known(self) -> bool { true }\n        pub fn next(self) -> Status { self }\n    }\n}\n";
     let abis: Vec<String> = ["Job_status", "Job_set_status", "Job_known_status", "Job_check", "Job_flags", "Job_report", "Job_take", "Status_is_known", "Status_next"].iter().map(|s| s.to_string()).collect();
@@ -704,5 +726,6 @@ pub fn main(args: &[String]) {
     rep.extra.insert("model_prim_rows".into(), json!(model_prims));
     rep.extra.insert("observed_mismatches".into(), json!(observed_prim_mismatch));
     sparse_enum_probe(&mut rep);
+    write_option_probe(&mut rep);
     rep.print();
 }
